@@ -120,6 +120,10 @@ func verifBuildWorld(sim *verifsim.Sim) *verifWorld {
 	w.name[u("/notes/n3")] = "n3"
 	w.name[u("/missing")] = "fo"
 	w.put("/empty", map[string]any{"type": "OrderedCollection", "totalItems": 0, "orderedItems": []any{}})
+	/* a Lemmy-style thread (replies filed under "comments"), outside the model's world */
+	w.put("/notes/lp", map[string]any{"type": "Page", "name": "lp", "content": "<p>lemmy post</p>",
+		"comments": map[string]any{"id": u("/notes/lp/comments"), "type": "Collection", "items": []any{u("/notes/lc")}}})
+	w.put("/notes/lc", map[string]any{"type": "Note", "name": "lc", "content": "<p>lemmy comment</p>", "inReplyTo": u("/notes/lp")})
 	/* outside the model's world: a post whose replies and author cannot be obtained (C08 liveness scenario) */
 	w.put("/notes/x1", map[string]any{"type": "Note", "name": "x1", "content": "<p>x</p>", "replies": u("/missing-replies"), "attributedTo": u("/missing-author")})
 	w.id, w.actors, w.activityOf = "w1", []string{"alice", "bob"}, map[string]string{"n1": "a1", "n3": "a2"}
@@ -168,6 +172,10 @@ func verifBuildWorld2(sim *verifsim.Sim) *verifWorld {
 	w.name[u("/notes/q4")] = "q4"
 	w.name[u("/missing")] = "fo"
 	w.put("/empty", map[string]any{"type": "OrderedCollection", "totalItems": 0, "orderedItems": []any{}})
+	/* a Lemmy-style thread (replies filed under "comments"), outside the model's world */
+	w.put("/notes/lp", map[string]any{"type": "Page", "name": "lp", "content": "<p>lemmy post</p>",
+		"comments": map[string]any{"id": u("/notes/lp/comments"), "type": "Collection", "items": []any{u("/notes/lc")}}})
+	w.put("/notes/lc", map[string]any{"type": "Note", "name": "lc", "content": "<p>lemmy comment</p>", "inReplyTo": u("/notes/lp")})
 	/* outside the model's world: a post whose replies and author cannot be obtained (C08 liveness scenario) */
 	w.put("/notes/x1", map[string]any{"type": "Note", "name": "x1", "content": "<p>x</p>", "replies": u("/missing-replies"), "attributedTo": u("/missing-author")})
 	w.id, w.actors = "w2", []string{"carol", "grp"}
@@ -1254,6 +1262,29 @@ func TestVerifConc(t *testing.T) {
 				returned = 1
 			}
 			out.Emit(verifkit.M{"ev": "liveness", "sid": sid, "scenario": "page whose replies and author cannot be obtained", "issued": 1, "returned": returned})
+		}
+		if sid%3 == 2 {
+			/* the same thread walked up by several loaders at once (the frontier of several pages): the documents they
+			   build from are shared through the cache and must only be read */
+			var wg sync.WaitGroup
+			for k := 0; k < 6; k++ {
+				wg.Add(1)
+				go func() {
+					defer wg.Done()
+					verifkit.Try(func() {
+						if item, ok := pub.New(w.h.URL("/notes/lc"), nil).(pub.Tangible); ok {
+							parents, frontier := item.Parents(1)
+							for _, p := range parents {
+								_ = p.Preview(40)
+							}
+							if frontier != nil {
+								frontier.Parents(1)
+							}
+						}
+					})
+				}()
+			}
+			wg.Wait()
 		}
 		if sid%3 == 0 {
 			/* a slow media hook that is abandoned with Esc (or another key) before it exits; afterwards
